@@ -41,22 +41,21 @@ theorem reserve_tie (add : Nat) (s : St) (hd : DataOk s.hp) (hr : RawOk s.self) 
     | heap a l =>
       have hc' : checkedAdd l add = some needed := hc
       cases hg : hp.get? a with
-      | none => rt_step [Handle.len, hc', hg, resOf, hr_is_unique_none rf st hp a l _ hg]
+      | none => rt_heap_none rf st hp a l hg [Handle.len, hc', resOf]
       | some b =>
         by_cases h1 : b.rc = 1
         · by_cases h2 : b.cap ≥ needed
-          · rt_step [Handle.len, hc', hg, h1, h2, resOf, hr_is_unique_some rf st hp a l _ hg, hr_capacity_some rf st hp a l _ hg]
+          · rt_heap_some rf st hp a l hg [Handle.len, hc', h1, h2, resOf]
           · cases hre : hp.realloc rf a (Gen.amortizedGrowth l add) <;>
-              rt_step [Handle.len, hc', hg, h1, h2, hre, resOf, hr_is_unique_some rf st hp a l _ hg, hr_capacity_some rf st hp a l _ hg]
+              rt_heap_some rf st hp a l hg [Handle.len, hc', h1, h2, hre, resOf]
         · by_cases h3 : l ≤ b.cap
           · rcases hw : heapWithAdditional rf hp (b.data.take l) add with ⟨o, hp1⟩
             cases o with
-            | none => rt_step [Handle.len, hc', hg, h1, h3, hw, moveTo, resOf, hr_is_unique_some rf st hp a l _ hg, hr_as_str_some rf st hp a l _ hg]
+            | none => rt_heap_some rf st hp a l hg [Handle.len, hc', h1, h3, hw, moveTo, resOf]
             | some a' =>
               cases hrl : releaseRepr hp1 (.heap a l) <;>
-                rt_step [Handle.len, hc', hg, h1, h3, hw, moveTo, take_len_block hd hg h3, replace_inner_step, hrl, resOf,
-                  hr_is_unique_some rf st hp a l _ hg, hr_as_str_some rf st hp a l _ hg]
-          · rt_step [Handle.len, hc', hg, h1, h3, resOf, hr_is_unique_some rf st hp a l _ hg, hr_as_str_some rf st hp a l _ hg]
+                rt_heap_some rf st hp a l hg [Handle.len, hc', h1, h3, hw, moveTo, take_len_block hd hg h3, replace_inner_step, hrl, resOf]
+          · rt_heap_some rf st hp a l hg [Handle.len, hc', h1, h3, resOf]
 /-- the same tie in the form a caller rewrites with -/
 theorem reserve_norm {ρ' : Type} (add : Nat) (s : St) (hd : DataOk s.hp) (hr : RawOk s.self) :
     (norm (GenRepr.Repr.reserve add s) : Step ρ' (Rs Unit)) = stepOfRes s.rf s.st (reserve s.rf s.st s.hp s.self add) := by
@@ -94,21 +93,20 @@ theorem reserve_norm {ρ' : Type} (add : Nat) (s : St) (hd : DataOk s.hp) (hr : 
     | heap a l =>
       have hc' : checkedAdd l add = some needed := hc
       cases hg : hp.get? a with
-      | none => rt_step [Handle.len, hc', hg, norm, stepOfRes, hr_is_unique_none rf st hp a l _ hg]
+      | none => rt_heap_none rf st hp a l hg [Handle.len, hc', norm, stepOfRes]
       | some b =>
         by_cases h1 : b.rc = 1
         · by_cases h2 : b.cap ≥ needed
-          · rt_step [Handle.len, hc', hg, h1, h2, norm, stepOfRes, hr_is_unique_some rf st hp a l _ hg, hr_capacity_some rf st hp a l _ hg]
+          · rt_heap_some rf st hp a l hg [Handle.len, hc', h1, h2, norm, stepOfRes]
           · cases hre : hp.realloc rf a (Gen.amortizedGrowth l add) <;>
-              rt_step [Handle.len, hc', hg, h1, h2, hre, norm, stepOfRes, hr_is_unique_some rf st hp a l _ hg, hr_capacity_some rf st hp a l _ hg]
+              rt_heap_some rf st hp a l hg [Handle.len, hc', h1, h2, hre, norm, stepOfRes]
         · by_cases h3 : l ≤ b.cap
           · rcases hw : heapWithAdditional rf hp (b.data.take l) add with ⟨o, hp1⟩
             cases o with
-            | none => rt_step [Handle.len, hc', hg, h1, h3, hw, moveTo, norm, stepOfRes, hr_is_unique_some rf st hp a l _ hg, hr_as_str_some rf st hp a l _ hg]
+            | none => rt_heap_some rf st hp a l hg [Handle.len, hc', h1, h3, hw, moveTo, norm, stepOfRes]
             | some a' =>
               cases hrl : releaseRepr hp1 (.heap a l) <;>
-                rt_step [Handle.len, hc', hg, h1, h3, hw, moveTo, take_len_block hd hg h3, replace_inner_step, hrl, norm, stepOfRes,
-                  hr_is_unique_some rf st hp a l _ hg, hr_as_str_some rf st hp a l _ hg]
-          · rt_step [Handle.len, hc', hg, h1, h3, norm, stepOfRes, hr_is_unique_some rf st hp a l _ hg, hr_as_str_some rf st hp a l _ hg]
+                rt_heap_some rf st hp a l hg [Handle.len, hc', h1, h3, hw, moveTo, take_len_block hd hg h3, replace_inner_step, hrl, norm, stepOfRes]
+          · rt_heap_some rf st hp a l hg [Handle.len, hc', h1, h3, norm, stepOfRes]
 
 end LS.GenTie
